@@ -13,50 +13,40 @@ func init() { register("C16", checkC16) }
 // bceReviewed: the repository index/slice expressions the compiler's prove pass cannot discharge, each with the
 // reason it cannot go out of range for any Taskfile / argument input. Key: function|expression.
 // An expression that is not listed is an unreviewed potential panic.
-var bceReviewed = map[string]string{
-	"args.Get|args[doubleDashPos:]":                                                "pflag.ArgsLenAtDash() is a position inside pflag.Args() (library post-condition); tested != -1 first",
-	"args.splitVar|pair[0]":                                                        "strings.SplitN always returns at least one element",
-	"args.splitVar|pair[1]":                                                        "splitVar is only called on the strings.Contains(arg, \"=\") edge (rule C19 splitvar), so SplitN(…, 2) yields two elements",
-	"task.(*Compiler).getSpecialVars|os.Args[0]":                                   "process-level: os.Args always holds the program name; not Taskfile input",
-	"errors.(*TaskfileDecodeError).Error|te.Errors[0]":                             "yaml.TypeError is only constructed with at least one message; the > 1 case is handled by the other branch",
-	"task.(*Executor).ToEditorOutput$1|o.Tasks[i]":                                 "o.Tasks is made with len(tasks) and i ranges over tasks",
-	"task.(*Executor).ToEditorOutput$1|tasks[i]":                                   "i ranges over the same slice",
-	"internal/env.GetEnviron|keyVal[0]":                                            "strings.SplitN always returns at least one element",
-	"internal/env.GetEnviron|keyVal[1]":                                            "process-level: every os.Environ() entry has the form key=value; not Taskfile input",
-	"internal/execext.ExpandLiteral|words[0]":                                      "guarded by the len(words) == 0 return just above",
-	"internal/flags.init|os.Args[1:]":                                              "process-level: os.Args is never empty",
-	"internal/slicesext.UniqueJoin|r[i:]":                                          "i is the running sum of copied lengths and r was made with the total length",
-	"internal/sort.AlphaNumericWithRootTasksFirst$1|items[i]":                      "sort callback: indices are supplied by sort.Slice over the same slice",
-	"internal/sort.AlphaNumericWithRootTasksFirst$1|items[j]":                      "sort callback: indices are supplied by sort.Slice over the same slice",
-	"internal/version.getCommit|setting.Value[:7]":                                 "build-info string (a VCS revision hash), not user input",
-	"task.(*Executor).RunTask$1|t.Cmds[i]":                                         "i ranges over t.Cmds of the call-private compiled task, which is not resized while it runs",
-	"task.(*Executor).runDeferred|t.Cmds[i]":                                       "i is the loop index of the cmds loop over the same compiled task (rule defer-registration: receives the loop variable)",
-	"task.(*Executor).runCommand|t.Cmds[i]":                                        "i is the loop index of the cmds loop over the same compiled task (rule cmds-in-order: loop-var-to-runner)",
-	"task.(*Executor).GetTaskList$1|tasks[i]":                                      "closure created inside `for i := range tasks`",
-	"taskfile/ast.(*TaskfileGraph).Merge|hashes[0]":                                "the reader adds the root vertex before Merge is called, so the topological order is never empty",
-	"taskfile/ast.(*Includes).UnmarshalYAML|node.Content[i]":                       "i < len(node.Content) is the loop condition",
-	"taskfile/ast.(*Includes).UnmarshalYAML|node.Content[i + 1]":                   "a yaml.v3 MappingNode always has an even number of Content entries (key/value pairs); the function only indexes under `case yaml.MappingNode`",
-	"taskfile/ast.(*Matrix).UnmarshalYAML|node.Content[i]":                         "i < len(node.Content) is the loop condition",
-	"taskfile/ast.(*Matrix).UnmarshalYAML|node.Content[i + 1]":                     "yaml.v3 MappingNode: even number of Content entries",
-	"taskfile/ast.(*Tasks).UnmarshalYAML|node.Content[i]":                          "i < len(node.Content) is the loop condition",
-	"taskfile/ast.(*Tasks).UnmarshalYAML|node.Content[i + 1]":                      "yaml.v3 MappingNode: even number of Content entries",
-	"taskfile/ast.(*Vars).UnmarshalYAML|node.Content[i]":                           "i < len(node.Content) is the loop condition",
-	"taskfile/ast.(*Vars).UnmarshalYAML|node.Content[i + 1]":                       "yaml.v3 MappingNode: even number of Content entries",
-	"taskfile/ast.(*Platform).parsePlatform|splitValues[0]":                        "strings.Split always returns at least one element",
-	"taskfile/ast.(*Tasks).Merge|task.Aliases[i]":                                  "i ranges over task.Aliases",
-	"taskfile.getScheme|strings.Split(u.Path, \"//\")[0]":                          "strings.Split always returns at least one element",
-	"taskfile.getScheme|uri[:i]":                                                   "i is strings.Index(uri, …) and was tested != -1",
-	"taskfile.NewSnippet|linesRaw[snippet.start - 1:snippet.end]":                  "both ends are clamped: end = max(min(…, len(linesRaw)-1, len(linesHighlighted)), 0), start = min(max(…, 1), end+1)",
-	"taskfile.NewSnippet|linesHighlighted[snippet.start - 1:snippet.end]":          "both ends are clamped to min(len(linesRaw)-1, len(linesHighlighted)) (see above)",
-	"taskfile.(*Snippet).String|s.linesRaw[i]":                                     "linesRaw and linesHighlighted are cut with the same bounds in NewSnippet, i ranges over linesHighlighted",
-	"task.(*Executor).compiledTask|keys[i]":                                        "itemsFromFor appends keys and values in lockstep (map case) so len(keys) == len(list) whenever keys is non-empty; guarded by len(keys) > 0",
+// Key: package | shape of the expression, where local variables and parameters are replaced by their types
+// (so that renaming a function, parameter or local does not matter). Value: how many such expressions are reviewed
+// in that package and why they cannot go out of range.
+type bceEntry struct {
+	n      int
+	reason string
+	guard  string // optional: a fact kind that must dominate the expression ("nonempty" on the indexed operand)
 }
 
-// bceRequires: facts that must dominate a reviewed site for its reason to apply.
-var bceRequires = map[string]string{
-	"task.(*Executor).compiledTask|keys[i]":       "nonempty:var:keys",
-	"internal/execext.ExpandLiteral|words[0]":     "nonempty:var:words",
-	"taskfile/ast.(*Includes).UnmarshalYAML|node.Content[i + 1]": "",
+var bceReviewed = map[string]bceEntry{
+	"args|[]string[int:]":     {1, "args[doubleDashPos:]: pflag.ArgsLenAtDash() is a position inside pflag.Args() (library post-condition); tested != -1 first", ""},
+	"args|[]string[0]":        {1, "strings.SplitN always returns at least one element", ""},
+	"args|[]string[1]":        {1, "the splitter is only called on the strings.Contains(arg, \"=\") edge (rule C19 splitvar), so SplitN(…, 2) yields two elements", ""},
+	"task|os.Args[0]":         {1, "process-level: os.Args always holds the program name; not Taskfile input", ""},
+	"errors|*yaml.TypeError.Errors[0]": {1, "yaml.TypeError is only constructed with at least one message; the > 1 case is handled by the other branch", ""},
+	"task|*editors.Taskfile.Tasks[int]": {2, "o.Tasks is made with len(tasks) and the index ranges over tasks", ""},
+	"task|[]*ast.Task[int]":   {3, "index is the loop variable of a `for i := range tasks` over the same slice (closure per iteration)", ""},
+	"internal/env|[]string[0]": {1, "strings.SplitN always returns at least one element", ""},
+	"internal/env|[]string[1]": {1, "process-level: every os.Environ() entry has the form key=value; not Taskfile input", ""},
+	"internal/execext|[]*syntax.Word[0]": {1, "guarded by the len(words) == 0 return just above", "nonempty"},
+	"internal/flags|os.Args[1:]": {1, "process-level: os.Args is never empty", ""},
+	"internal/slicesext|[]T[int:]": {1, "i is the running sum of copied lengths and r was made with the total length", ""},
+	"internal/sort|[]string[int]": {2, "sort callback: indices are supplied by sort.Slice over the same slice", ""},
+	"internal/version|debug.BuildSetting.Value[:7]": {1, "build-info string (a VCS revision hash), not user input", ""},
+	"task|*ast.Task.Cmds[int]": {3, "the index is the loop variable of the cmds loop over the call-private compiled task, handed unchanged to the command runner / deferred-command runner (rules cmds-in-order, defer-registration)", ""},
+	"taskfile/ast|[]string[0]": {2, "topological order of a graph to which the reader always adds the root vertex first / strings.Split always returns at least one element", ""},
+	"taskfile/ast|*yaml.Node.Content[int]": {4, "i < len(node.Content) is the loop condition", ""},
+	"taskfile/ast|*yaml.Node.Content[int + 1]": {4, "a yaml.v3 MappingNode always has an even number of Content entries (key/value pairs); only indexed under `case yaml.MappingNode`", ""},
+	"taskfile/ast|*ast.Task.Aliases[int]": {1, "index ranges over the same slice", ""},
+	"taskfile|strings.Split(*url.URL.Path, \"//\")[0]": {1, "strings.Split always returns at least one element", ""},
+	"taskfile|string[:int]": {1, "i is strings.Index(uri, …) and was tested != -1", ""},
+	"taskfile|[]string[*taskfile.Snippet.start - 1:*taskfile.Snippet.end]": {2, "both ends are clamped in NewSnippet: end = max(min(…, len(linesRaw)-1, len(linesHighlighted)), 0), start = min(max(…, 1), end+1)", ""},
+	"taskfile|*taskfile.Snippet.linesRaw[int]": {1, "linesRaw and linesHighlighted are cut with the same bounds in NewSnippet, the index ranges over linesHighlighted", ""},
+	"task|[]string[int]": {2, "keys[i]: itemsFromFor appends keys and values in lockstep (map case) so len(keys) == len(list) whenever keys is non-empty; guarded by len(keys) > 0", "nonempty"},
 }
 
 var bceSkipPkgs = map[string]bool{Mod + "/cmd/release": true, Mod + "/cmd/sleepit": true, Mod + "/cmd/tmp": true}
@@ -84,6 +74,7 @@ func c16BCE(c *Check, a *Anchors) {
 	nRepo, nInl := 0, 0
 	ord := map[string]int{}
 	flows := map[*FuncBody]*Flow{}
+	used := map[string]int{}
 	for _, s := range sites {
 		if s.FB == nil || bceSkipPkgs[s.FB.Pkg.PkgPath] || strings.HasSuffix(s.File, "_mock.go") {
 			continue
@@ -94,26 +85,44 @@ func c16BCE(c *Check, a *Anchors) {
 		}
 		nRepo++
 		c.Fn(s.FB)
-		k := fnDisplay(s.FB) + "|" + s.Expr
+		pk := strings.TrimPrefix(strings.TrimPrefix(s.FB.Pkg.PkgPath, Mod), "/")
+		if pk == "" {
+			pk = "task"
+		}
+		k := pk + "|" + shapeOf(s.FB.Info(), s.Node.(ast.Expr))
 		key := ordinal(ord, k)
-		reason, ok := bceReviewed[k]
-		if !ok {
-			c.Bad("bounds-reviewed", key, s.Node.Pos(), fmt.Sprintf("`%s` in %s: the compiler cannot prove this %s in range and the expression is not in the reviewed table — for some Taskfile, task name or argument it may panic with index/slice out of range", s.Expr, fnDisplay(s.FB), strings.ToLower(strings.TrimPrefix(s.Kind, "Is"))))
+		ent, ok := bceReviewed[k]
+		used[k]++
+		if !ok || used[k] > ent.n {
+			why := "the expression (shape " + k + ") is not in the reviewed table"
+			if ok {
+				why = fmt.Sprintf("only %d expression(s) of shape %s are reviewed; this is one more", ent.n, k)
+			}
+			c.Bad("bounds-reviewed", key, s.Node.Pos(), fmt.Sprintf("`%s` in %s: the compiler cannot prove this %s in range and %s — for some Taskfile, task name or argument it may panic with index/slice out of range", s.Expr, fnDisplay(s.FB), strings.ToLower(strings.TrimPrefix(s.Kind, "Is")), why))
 			continue
 		}
-		if req := bceRequires[k]; req != "" {
+		if ent.guard != "" {
 			f := flows[s.FB]
 			if f == nil {
 				f = NewFlow(c.P, s.FB, func(*ast.CallExpr, types.Object) string { return "" })
+				f.NoInline = true
 				f.Run()
 				flows[s.FB] = f
 			}
+			var operand ast.Expr
+			switch x := s.Node.(type) {
+			case *ast.IndexExpr:
+				operand = x.X
+			case *ast.SliceExpr:
+				operand = x.X
+			}
+			req := ent.guard + ":" + f.atomKey(operand, Facts{})
 			if !factAtExpr(f, s.Node, req) {
 				c.Bad("bounds-reviewed", key, s.Node.Pos(), fmt.Sprintf("`%s` in %s is reviewed as safe only under the guard `%s`, which no longer dominates it", s.Expr, fnDisplay(s.FB), req))
 				continue
 			}
 		}
-		c.OK("bounds-reviewed", key, s.Node.Pos(), "reviewed: "+reason)
+		c.OK("bounds-reviewed", key, s.Node.Pos(), "reviewed: "+ent.reason)
 	}
 	c.Sites += nRepo + nInl
 	c.Extra["bce_repo_expressions"] = nRepo
@@ -122,9 +131,8 @@ func c16BCE(c *Check, a *Anchors) {
 	c.Floor("bounds-reviewed", nRepo, 25)
 }
 
-// factAtExpr: the fact (prefix match on the variable name part) holds at the statement containing the expression.
+// factAtExpr: the fact holds at the innermost recorded statement containing the expression.
 func factAtExpr(f *Flow, n ast.Node, req string) bool {
-	parts := strings.SplitN(req, ":var:", 2)
 	best := Facts(nil)
 	var bestNode ast.Node
 	for node, st := range f.At {
@@ -134,18 +142,67 @@ func factAtExpr(f *Flow, n ast.Node, req string) bool {
 			}
 		}
 	}
-	if best == nil {
-		return false
-	}
-	for k := range best {
-		if len(parts) == 2 && strings.HasPrefix(k, parts[0]+":var:"+parts[1]+"#") {
-			return true
+	return best != nil && best[req]
+}
+
+// shapeOf renders an index/slice expression with local variables and parameters replaced by their types.
+func shapeOf(info *types.Info, e ast.Expr) string {
+	var r func(e ast.Expr) string
+	tstr := func(t types.Type) string { return types.TypeString(t, shortQual) }
+	r = func(e ast.Expr) string {
+		switch x := e.(type) {
+		case *ast.ParenExpr:
+			return "(" + r(x.X) + ")"
+		case *ast.Ident:
+			switch o := info.Uses[x].(type) {
+			case *types.Var:
+				if o.Pkg() != nil && o.Parent() == o.Pkg().Scope() {
+					return o.Pkg().Name() + "." + o.Name()
+				}
+				return tstr(o.Type())
+			case *types.Const, *types.Nil, *types.Builtin, *types.Func, *types.TypeName, *types.PkgName:
+				return x.Name
+			}
+			if o, ok := info.Defs[x].(*types.Var); ok {
+				return tstr(o.Type())
+			}
+			return x.Name
+		case *ast.SelectorExpr:
+			if id, ok := x.X.(*ast.Ident); ok {
+				if _, isPkg := info.Uses[id].(*types.PkgName); isPkg {
+					return id.Name + "." + x.Sel.Name
+				}
+			}
+			return r(x.X) + "." + x.Sel.Name
+		case *ast.IndexExpr:
+			return r(x.X) + "[" + r(x.Index) + "]"
+		case *ast.SliceExpr:
+			lo, hi := "", ""
+			if x.Low != nil {
+				lo = r(x.Low)
+			}
+			if x.High != nil {
+				hi = r(x.High)
+			}
+			return r(x.X) + "[" + lo + ":" + hi + "]"
+		case *ast.BinaryExpr:
+			return r(x.X) + " " + x.Op.String() + " " + r(x.Y)
+		case *ast.UnaryExpr:
+			return x.Op.String() + r(x.X)
+		case *ast.StarExpr:
+			return "*" + r(x.X)
+		case *ast.BasicLit:
+			return x.Value
+		case *ast.CallExpr:
+			var as []string
+			for _, a := range x.Args {
+				as = append(as, r(a))
+			}
+			return r(x.Fun) + "(" + strings.Join(as, ", ") + ")"
 		}
-		if k == req {
-			return true
-		}
+		return exprStr(e)
 	}
-	return false
+	return r(e)
 }
 
 var otherReviewed = map[string]string{
@@ -249,10 +306,10 @@ func c16OtherPanics(c *Check, a *Anchors) {
 var nilFreeInputs = map[string]string{
 	"task.(*Executor).runDeps|Task.Deps":                                  "ranges over the compiled task: the task compiler skips nil deps",
 	"task.(*Executor).areTaskPreconditionsMet|Task.Preconditions":         "compiled task: the task compiler skips nil preconditions",
-	"internal/fingerprint.(*ChecksumChecker).IsUpToDate|Task.Generates":   "compiled task: templater.ReplaceGlobs drops nil globs",
-	"internal/fingerprint.Globs|param globs":                              "callers pass Sources/Generates of a compiled task (templater.ReplaceGlobs drops nil globs)",
-	"internal/summary.printTaskDependencies|Task.Deps":                    "compiled task",
-	"internal/summary.printTaskCommands|Task.Cmds":                        "compiled task: the task compiler skips nil cmds",
+	"pkg internal/fingerprint|Task.Generates": "every function of the fingerprint package receives the compiled task: templater.ReplaceGlobs drops nil globs",
+	"pkg internal/fingerprint|Task.Sources":   "every function of the fingerprint package receives the compiled task: templater.ReplaceGlobs drops nil globs",
+	"pkg internal/summary|Task.Deps":          "the summary printer receives the compiled task: the task compiler skips nil deps",
+	"pkg internal/summary|Task.Cmds":          "the summary printer receives the compiled task: the task compiler skips nil cmds",
 	"task.(*Executor).registerWatchedDirs|Task.Deps":                      "compiled task",
 	"task.(*Executor).registerWatchedDirs|Task.Cmds":                      "compiled task",
 	"task.(*Executor).ListTasks|expr tasks":                               "result of GetTaskList: every element is a compiled task (address of a fresh literal) or a map value stored by Tasks.UnmarshalYAML as &v, never nil",
@@ -330,11 +387,29 @@ func c16NilElements(c *Check, a *Anchors) {
 			}
 			k := fnDisplay(fb.Root()) + "|" + src
 			key := ordinal(ord, k)
+			producer := ""
+			if rv := rootVar(info, r.X); rv != nil {
+				for _, d := range defsOf(info, fb.Root().Body, rv) {
+					if call, ok := ast.Unparen(d).(*ast.CallExpr); ok {
+						obj := callee(info, call)
+						if isFunc(obj, PkgTask, "Executor", "CompiledTask") || isFunc(obj, PkgTask, "Executor", "FastCompiledTask") || a.is(obj, a.CompiledTask) || isFunc(obj, PkgTask, "Executor", "GetTaskList") {
+							producer = calleeName(obj)
+						}
+					}
+				}
+			}
+			anchored := (fb.Root() == a.DepRunner && src == "Task.Deps") || (fb.Root() == a.Preconditions && src == "Task.Preconditions")
 			switch {
+			case producer != "":
+				c.OK("yaml-nil-elements", key, r.Pos(), "nil-free input: the ranged value comes from "+producer+" in this function (the task compiler skips nil cmds/deps/preconditions and ReplaceGlobs drops nil globs)")
+			case anchored:
+				c.OK("yaml-nil-elements", key, r.Pos(), "nil-free input: this function is only handed the compiled task by the task body")
 			case firstTest != 0 && firstTest < firstDeref:
 				c.OK("yaml-nil-elements", key, r.Pos(), "element tested against nil before its first dereference")
 			case nilFreeInputs[k] != "":
 				c.OK("yaml-nil-elements", key, r.Pos(), "nil-free input: "+nilFreeInputs[k])
+			case nilFreeInputs["pkg "+strings.TrimPrefix(fb.Pkg.PkgPath, Mod+"/")+"|"+src] != "":
+				c.OK("yaml-nil-elements", key, r.Pos(), "nil-free input: "+nilFreeInputs["pkg "+strings.TrimPrefix(fb.Pkg.PkgPath, Mod+"/")+"|"+src])
 			default:
 				c.Bad("yaml-nil-elements", key, r.Pos(), fmt.Sprintf("loop over %s (%s) in %s dereferences the element without a nil test, and the input is not known to be nil-free: a `- null` / empty list item in the Taskfile makes Task panic with a nil pointer dereference", exprStr(r.X), types.TypeString(tv.Type, shortQual), fnDisplay(fb.Root())))
 			}
